@@ -71,6 +71,37 @@ def Inv (t : Tree) : Prop :=
 
 instance (t : Tree) : Decidable (Inv t) := by unfold Inv; infer_instance
 
-def checkInv (t : Tree) : Bool := decide (Inv t)
+/-! ### the executable check
+
+`Inv` states the order of a chain pairwise (every leaf against every later leaf), which is what the
+proofs use. The check only compares neighbours — equivalent because fences are transitive
+(`checkInv_iff` in `YakModel/Proofs/TreeProofs.lean`) — so it is linear in the length of a chain. -/
+
+def beforeChain : List Leaf → Bool
+  | [] => true
+  | [_] => true
+  | a :: b :: r => decide (Before a b) && beforeChain (b :: r)
+
+def LayerCoreFast (leaves : List Leaf) : Prop :=
+  FencesOK leaves ∧ beforeChain leaves = true ∧ ∀ l ∈ leaves, LeafOK l
+
+instance (ls : List Leaf) : Decidable (LayerCoreFast ls) := by unfold LayerCoreFast; infer_instance
+
+def LayerOKFast (t : Tree) (L : Layer) : Prop :=
+  L.pfx.length % 8 = 0 ∧ LayerCoreFast L.leaves ∧ EmptOK L.pfx.isEmpty L.leaves ∧
+  (∀ e ∈ layerEnts L.leaves, e.kt.len = 9 → ∃ L' ∈ t, L'.pfx = L.pfx ++ e.kt.slice) ∧
+  (L.pfx ≠ [] →
+    (∀ e ∈ layerEnts L.leaves, e.kt.len ≠ 0) ∧
+    ∃ U ∈ t, U.pfx = L.pfx.take (L.pfx.length - 8) ∧
+      ∃ e ∈ layerEnts U.leaves, e.kt = ⟨L.pfx.drop (L.pfx.length - 8), 9⟩)
+
+instance (t : Tree) (L : Layer) : Decidable (LayerOKFast t L) := by unfold LayerOKFast; infer_instance
+
+def InvFast (t : Tree) : Prop :=
+  (t.map (·.pfx)).Nodup ∧ (∃ L ∈ t, L.pfx = []) ∧ ∀ L ∈ t, LayerOKFast t L
+
+instance (t : Tree) : Decidable (InvFast t) := by unfold InvFast; infer_instance
+
+def checkInv (t : Tree) : Bool := decide (InvFast t)
 
 end Yak.Tree
